@@ -20,10 +20,14 @@ enum Target {
     ShortRecord,
     GoodPcap,
     GoodText,
+    /// a valid pcap global header cut after 4 / 8 / 23 bytes
+    Prefix4,
+    Prefix8,
+    Prefix23,
 }
 const TARGETS: &[Target] = &[
     Target::Missing, Target::Dir, Target::Existing, Target::DevFull, Target::ThroughFile, Target::EmptyFile, Target::Short10, Target::Garbage24,
-    Target::ShortRecord, Target::GoodPcap, Target::GoodText,
+    Target::ShortRecord, Target::GoodPcap, Target::GoodText, Target::Prefix4, Target::Prefix8, Target::Prefix23,
 ];
 
 /// (source text of the opener with P for the path, kind of handle it yields)
@@ -68,7 +72,7 @@ fn open_fails(op: &str, t: Target) -> bool {
     }
     if pcap && mode == "r" {
         // reading the global header: a directory (EISDIR), too short or non-pcap content
-        return matches!(t, Target::Dir | Target::EmptyFile | Target::Short10 | Target::Garbage24 | Target::GoodText | Target::Existing | Target::DevFull);
+        return matches!(t, Target::Dir | Target::EmptyFile | Target::Short10 | Target::Garbage24 | Target::GoodText | Target::Existing | Target::DevFull | Target::Prefix4 | Target::Prefix8 | Target::Prefix23);
     }
     false
 }
@@ -92,7 +96,7 @@ fn followup_fails(call: &str, t: Target, pending_before: usize) -> Option<bool> 
             }
             Some(false)
         }
-        Target::ShortRecord | Target::GoodPcap if call == "read_line(h)" || call == "read_to_string(h)" => None, // not UTF-8: not an OS failure
+        Target::ShortRecord | Target::GoodPcap | Target::Prefix4 | Target::Prefix8 | Target::Prefix23 if call == "read_line(h)" || call == "read_to_string(h)" => None, // not UTF-8: not an OS failure
         _ => {
             if call.starts_with("pcap_read") && t == Target::ShortRecord {
                 None // end of data inside a record: null or an error object
@@ -164,6 +168,10 @@ fn setup(dir: &std::path::Path) -> std::collections::BTreeMap<String, String> {
     let mut short = good.clone();
     short.truncate(24 + 16 + 20);
     std::fs::write(dir.join("t/shortrec.pcap"), &short).unwrap();
+    for k in [4usize, 8, 23] {
+        std::fs::write(dir.join(format!("t/prefix{}", k)), &good[..k]).unwrap();
+        m.insert(format!("Prefix{}", k), p(&format!("t/prefix{}", k)));
+    }
     m.insert("Missing".into(), p("t/none"));
     m.insert("Dir".into(), p("t/adir"));
     m.insert("Existing".into(), p("t/existing.txt"));
@@ -334,7 +342,7 @@ impl Property for P22 {
         }
     }
     fn rule(&self) -> String {
-        format!("fault alphabet {:?} (ENOENT, EISDIR at open or at the first read, EEXIST under mode x, ENOSPC via /dev/full at flush or when the 8 KiB buffer spills, ENOTDIR, empty / 10-byte / garbage / half-record pcap input) x openers {:?} x every sequence of <= 2 (quick) or <= 4 (thorough; 4 only after a successful open) follow-up calls appropriate to the handle (read, read(n), read_line, read_to_string / write small, write 9600 bytes, flush, write bytes / pcap_read_next, pcap_read_all / pcap_write, 200 pcap_writes); each sequence is a script run through the real compiler and VM; oracle: the script reaches its end without a runtime error, every call that meets the failure returns a value with is_error == true and every other call does not; pcap_stream(stdin) with each bad input through the binary; write/flush on the stdout handle through the binary with standard output redirected to /dev/full. EACCES cannot be provoked (the sandbox runs as root)", TARGETS, OPENERS.iter().map(|o| o.0).collect::<Vec<_>>())
+        format!("fault alphabet {:?} (ENOENT, EISDIR at open or at the first read, EEXIST under mode x, ENOSPC via /dev/full at flush or when the 8 KiB buffer spills, ENOTDIR, empty / 10-byte / garbage / half-record pcap input, a valid global header cut after 4 / 8 / 23 bytes) x openers {:?} x every sequence of <= 2 (quick) or <= 4 (thorough; 4 only after a successful open) follow-up calls appropriate to the handle (read, read(n), read_line, read_to_string / write small, write 9600 bytes, flush, write bytes / pcap_read_next, pcap_read_all / pcap_write, 200 pcap_writes); each sequence is a script run through the real compiler and VM; oracle: the script reaches its end without a runtime error, every call that meets the failure returns a value with is_error == true and every other call does not; pcap_stream(stdin) with each bad input through the binary; write/flush on the stdout handle through the binary with standard output redirected to /dev/full. EACCES cannot be provoked (the sandbox runs as root)", TARGETS, OPENERS.iter().map(|o| o.0).collect::<Vec<_>>())
     }
     fn bounds(&self) -> Value {
         json!({"sequences": self.cases.len(), "binary_runs": if self.e2e { 5 + STDOUT_FULL.len() } else { 0 }})
